@@ -58,6 +58,24 @@ class World:
         self.modes = {}        # lc chan -> set of mode letters
         self.topic_locked = {}
         self.created = set()
+        self.keys = {}         # lc chan -> key (+k)
+        self.bans = {}         # lc chan -> list of (mask, [compiled patterns])
+        self.invites = set()   # (lc chan, session id): unused invitations
+        self.addr = {}         # session id -> last known remote address
+        self.uncertain = set() # channels whose modes/ops may have changed without an announcement
+
+    def ban_patterns(self, mask):
+        """ircserver: regexp.QuoteMeta(mask) with \\* -> .*, matched unanchored; a ban on a session host also
+        bans that session's remote address (as known when the ban is set)"""
+        def comp(m):
+            return re.compile(re.escape(m).replace("\\*", ".*"))
+        pats = [comp(mask)]
+        m = re.search(r"robust/0x([0-9a-f]+)", mask)
+        if m:
+            a = self.addr.get(int(m.group(1), 16))
+            if a:
+                pats.append(comp(mask.replace(m.group(0), a)))
+        return pats
 
     def sid_of_prefix(self, pfx):
         nick, user, host = split_prefix(pfx)
@@ -84,9 +102,28 @@ def monitor(h, g, which):
         text = irc_check.txt(op)
         if ty == "0":
             w.created.add(int(f[2]))
+        if ty == "2" and len(f) > 8 and f[8] != "-":
+            try:
+                w.addr[actor] = bytes.fromhex(f[8]).decode("utf-8", "replace")
+            except ValueError:
+                pass
         inp = parse_line(text.encode()) if ty == "2" else (None, "QUIT", [text]) if ty == "1" else (None, "", [])
         icmd = inp[1].upper()
         actor_is_server = actor in w.servers
+        # cmdMode applies a multi-letter change but suppresses the channel-wide announcement as soon as any
+        # reply went to the sender (+k/-k confirmation, an error for one letter): after such a command an
+        # observer no longer knows the channel's modes, key, bans and operators
+        if ty == "2" and icmd == "MODE" and len(inp[2]) >= 2 and inp[2][0].startswith("#") and not actor_is_server:
+            want = {ch for ch in inp[2][1] if ch not in "+-"}
+            told, refused = set(), False
+            for (mid, rep, data, rc) in msgs:
+                p2, c2, a2 = parse_line(data)
+                if c2 == "482":
+                    refused = True
+                if c2 == "MODE" and len(a2) >= 2 and lower_chan(a2[0]) == lower_chan(inp[2][0]):
+                    told |= {ch for ch in a2[1] if ch not in "+-"}
+            if not refused and not want <= told and not (want == {"b"} and len(inp[2]) == 2):
+                w.uncertain.add(lower_chan(inp[2][0]))
         # pass 1: check every message against the world *before* this entry's announcements take
         # effect (JOIN is applied first: the joiner is entitled to its own JOIN and what follows)
         for (mid, rep, data, rc) in msgs:
@@ -96,6 +133,11 @@ def monitor(h, g, which):
             if cmd == "JOIN" and pfx and params:
                 sid = w.sid_of_prefix(pfx)
                 lc = lower_chan(params[0])
+                if which == "C13" and icmd == "JOIN" and not actor_is_server and sid == actor and w.members.get(lc) and lc not in w.uncertain \
+                        and lower_nick(split_prefix(pfx)[0]) not in w.members.get(lc, {}):
+                    bad = check_join(w, actor, inp, pfx, lc, params[0])
+                    if bad:
+                        return j, "c13:" + bad[0], "%s — output %r (input %r from session %d)" % (bad[1], data[:100], text[:80], actor)
                 if sid is not None:
                     w.members.setdefault(lc, {})[lower_nick(split_prefix(pfx)[0])] = sid
             if which == "C12":
@@ -113,6 +155,35 @@ def monitor(h, g, which):
         for (mid, rep, data, rc) in msgs:
             pfx, cmd, params = parse_line(data)
             update_world(w, actor, icmd, inp, pfx, cmd, params, set(rc))
+    return None
+
+
+def check_join(w, actor, inp, pfx, lc, chname):
+    """a session became member of an existing channel: were the join restrictions met?"""
+    modes = w.modes.get(lc, set())
+    invited = (lc, actor) in w.invites
+    if "i" in modes and not invited:
+        return ("join", "JOIN of invite-only channel %s without an invitation" % chname)
+    nick, user, host = split_prefix(pfx)
+    forms = [pfx]
+    if actor in w.addr:
+        forms.append("%s!%s@%s" % (nick, user, w.addr[actor]))
+    for mask, pats in w.bans.get(lc, []):
+        if any(p.search(fm) for p in pats for fm in forms):
+            return ("join", "JOIN of %s although ban %r matches %s" % (chname, mask, forms))
+    captcha_in_place_of_key = "x" in modes and not invited
+    if "k" in modes and not captcha_in_place_of_key:
+        chans = inp[2][0].split(",") if inp[2] else []
+        keys = inp[2][1].split(",") if len(inp[2]) > 1 else []
+        key = ""
+        for idx, c in enumerate(chans):
+            if lower_chan(c) == lc:
+                key = keys[idx] if idx < len(keys) else ""
+                break
+        if key != w.keys.get(lc, ""):
+            return ("join", "JOIN of +k channel %s with key %r (the key is %r)" % (chname, key, w.keys.get(lc, "")))
+    if "i" in modes or "x" in modes:
+        w.invites.discard((lc, actor))      # invitations are valid once
     return None
 
 
@@ -153,6 +224,12 @@ def update_world(w, actor, icmd, inp, pfx, cmd, params, rcs):
             w.members.pop(lc, None)
             w.chanops.pop(lc, None)
             w.modes.pop(lc, None)
+            w.keys.pop(lc, None)
+            w.bans.pop(lc, None)
+            w.uncertain.discard(lc)
+    elif cmd == "INVITE" and pfx and len(params) >= 2:
+        for sid in rcs - w.servers:
+            w.invites.add((lower_chan(params[1]), sid))
     elif cmd == "QUIT" and pfx:
         who = lower_nick(split_prefix(pfx)[0])
         sid = w.sid_of_prefix(pfx)
@@ -164,6 +241,9 @@ def update_world(w, actor, icmd, inp, pfx, cmd, params, rcs):
                 w.members.pop(lc, None)
                 w.chanops.pop(lc, None)
                 w.modes.pop(lc, None)
+                w.keys.pop(lc, None)
+                w.bans.pop(lc, None)
+                w.uncertain.discard(lc)
         if w.nick_sid.get(who) is not None:
             del w.nick_sid[who]
     elif cmd == "ERROR" and pfx is None and params and params[0].startswith("Closing Link"):
@@ -182,6 +262,9 @@ def update_world(w, actor, icmd, inp, pfx, cmd, params, rcs):
                         w.members.pop(lc, None)
                         w.chanops.pop(lc, None)
                         w.modes.pop(lc, None)
+                        w.keys.pop(lc, None)
+                        w.bans.pop(lc, None)
+                        w.uncertain.discard(lc)
     elif cmd == "SJOIN" and len(params) >= 3:
         lc = lower_chan(params[1])
         n = params[2]
@@ -190,6 +273,18 @@ def update_world(w, actor, icmd, inp, pfx, cmd, params, rcs):
     elif cmd == "MODE" and params and params[0].startswith("#") and len(params) >= 2:
         lc = lower_chan(params[0])
         adding, args = True, list(params[2:])
+        # the announcement lists all additions before all removals, whatever the order in which they were
+        # applied: if the same mode (and argument) occurs with both signs the outcome cannot be told
+        seen_pm, a2, ad2 = set(), list(params[2:]), True
+        for ch in params[1]:
+            if ch in "+-":
+                ad2 = ch == "+"
+                continue
+            arg = (a2.pop(0) if a2 else "") if ch in "okbd" else ""
+            key = (ch, lower_nick(arg) if ch == "o" else arg)
+            if (not ad2, key) in seen_pm:
+                w.uncertain.add(lc)
+            seen_pm.add((ad2, key))
         for ch in params[1]:
             if ch == "+":
                 adding = True
@@ -199,6 +294,19 @@ def update_world(w, actor, icmd, inp, pfx, cmd, params, rcs):
                 a = args.pop(0) if args else ""
                 if ch == "o" and a:
                     (w.chanops.setdefault(lc, set()).add if adding else w.chanops.setdefault(lc, set()).discard)(lower_nick(a))
+                if ch == "k":
+                    ms = w.modes.setdefault(lc, set())
+                    if adding:
+                        ms.add("k")
+                        w.keys[lc] = a
+                    else:
+                        ms.discard("k")
+                        w.keys.pop(lc, None)
+                if ch == "b" and a:
+                    if adding:
+                        w.bans.setdefault(lc, []).append((a, w.ban_patterns(a)))
+                    else:
+                        w.bans[lc] = [b for b in w.bans.get(lc, []) if b[0] != a]
             else:
                 s = w.modes.setdefault(lc, set())
                 (s.add if adding else s.discard)(ch)
@@ -269,6 +377,10 @@ def check_c13(w, actor, actor_is_server, icmd, inp, pfx, cmd, params, rcs):
         return None
     client_pfx = pfx is not None and HOST_RE.match(split_prefix(pfx)[2] or "") is not None
     me = lower_nick(w.sid_nick.get(actor, ""))
+    if cmd in ("KICK", "MODE", "TOPIC") and params and lower_chan(params[0]) in w.uncertain:
+        return None
+    if cmd == "INVITE" and len(params) >= 2 and lower_chan(params[1]) in w.uncertain:
+        return None
     if cmd == "KICK" and client_pfx and params and icmd == "KICK":
         lc = lower_chan(params[0])
         if me not in w.chanops.get(lc, set()):
